@@ -780,6 +780,18 @@ func (f *Frame) enterLoop(li *loopInfo, b *ssa.BasicBlock, entry *State, reach s
 		if phi.Comment == "rangeindex" {
 			// counter generated by go/ssa for `range` over a slice/array/string: starts at -1, incremented by 1
 			c.assume(reach, "(>= "+hv.T+" (- 1))")
+			// ... and it is re-entered only after `phi+1 < len` held, so phi is -1 or below the length
+			if iff, ok := b.Instrs[len(b.Instrs)-1].(*ssa.If); ok {
+				if cmp, ok := iff.Cond.(*ssa.BinOp); ok && cmp.Op == token.LSS {
+					if inc, ok := cmp.X.(*ssa.BinOp); ok && inc.Op == token.ADD && inc.X == ssa.Value(phi) {
+						if lv, ok := f.env[cmp.Y]; ok && lv.T != "" {
+							c.assume(reach, fmt.Sprintf("(or (= %s (- 1)) (< %s %s))", hv.T, hv.T, lv.T))
+						} else if k, ok := cmp.Y.(*ssa.Const); ok {
+							c.assume(reach, fmt.Sprintf("(or (= %s (- 1)) (< %s %s))", hv.T, hv.T, f.constVal(k).T))
+						}
+					}
+				}
+			}
 		}
 	}
 	li.headSt = hs.clone()
@@ -1316,15 +1328,17 @@ func (f *Frame) makeInterface(t types.Type, x SV, st *State, g string) SV {
 		return x
 	}
 	var ref string
-	srt := c.sortOf(t)
 	_, isPtr := t.Underlying().(*types.Pointer)
 	if isPtr && x.T != "" {
-		ref = x.T
-		// a nil pointer in an interface is a non-nil interface; keep ref 0
-	} else if x.T != "" && srt != "" {
-		ref = st.alloc()
-		h := c.boxHeap(t)
-		st.set(h, sto(st.get(h), ref, x.T))
+		ref = x.T // a nil pointer in an interface is a non-nil interface; ref stays 0
+	} else if x.T != "" {
+		// non-pointer dynamic values are immutable: box them with an injective function so that interface
+		// equality coincides with value equality
+		srt := c.sortOf(t)
+		bx := c.declFun("box:"+typeKey(t), []string{srt}, "Int")
+		ub := c.declFun("unbox:"+typeKey(t), []string{"Int"}, srt)
+		ref = app(bx, x.T)
+		c.assert(fmt.Sprintf("(and (= (%s %s) %s) (< %s 0))", ub, ref, x.T, ref))
 	} else {
 		ref = st.alloc()
 		if x.Fn != nil {
@@ -1371,8 +1385,10 @@ func (f *Frame) typeAssert(i *ssa.TypeAssert, st *State, g string) {
 		if _, isPtr := at.Underlying().(*types.Pointer); isPtr {
 			val = fmt.Sprintf("(i.ref %s)", x.T)
 		} else {
-			val = sel(st.get(c.boxHeap(at)), fmt.Sprintf("(i.ref %s)", x.T))
+			ub := c.declFun("unbox:"+typeKey(at), []string{"Int"}, c.sortOf(at))
+			val = app(ub, fmt.Sprintf("(i.ref %s)", x.T))
 		}
+		c.assume(and(g, ok), c.wf(at, val, st.wm()))
 	}
 	if i.CommaOk {
 		v := ite(ok, val, c.zero(at))
